@@ -18,6 +18,7 @@ logger = Log(__name__)
 logger.debug("loading module")
 from amoco.ui import render
 import operator
+from copy import copy
 
 
 # decorators:
@@ -949,7 +950,12 @@ class reg(exp):
 
     def eval(self, env):
         r = env[self]
-        r.sf = self.sf
+        if r._is_cst or r.sf != self.sf:
+            # r is the object held by env: set the sign flag on a copy,
+            # otherwise the flag leaks into env and into every other
+            # expression that already holds this object.
+            r = copy(r)
+            r.sf = self.sf
         return r
 
     def addr(self, env):
